@@ -20,7 +20,23 @@ An interleaving transition system with `n` GC workers for every `n`, transcribed
 
 Atomicity. Everything done while holding `WorkerMonitor::sync` is one action (`park`, `wake`,
 `makeRequest`): the mutex serialises these sections, and while the last parked worker runs
-`on_last_parked` every other worker is inside `Condvar::wait`.  Everything else (bucket queues, `open`
+`on_last_parked` every other worker is inside `Condvar::wait`.  Mutators are NOT excluded by that mutex:
+`on_gc_finished` resumes them (`resume`) in the middle of the last parker's section, and under
+`mutAddOpen` they run during every section of the concurrent phase.  What a mutator can do without
+the mutex is `requestFlag`, `mutPush`, `mutNotifyOne`.  The parts of a section that can overlap with
+running mutators are `respond` (no goal current) and what follows `resume` (`completeGc`, `respond`,
+the final `notify_all`/unpark); they read no `requestFlag`, read no bucket queue and change no bucket
+flag, so each of the three mutator actions commutes to the right of the rest of the section: a waiter
+that a mutator's `notify_one` wakes cannot leave `wait` before the section releases the mutex, and a
+section that ends in `notify_all` wakes it anyway — the same state is reached by the whole section
+followed by a `mutNotifyOne` that finds nobody.  So the atomic section followed by the mutator's
+actions simulates every real interleaving, and the monitor (`Driver/Sched/Monitor.lean`) replays logs
+in that order.  (One interleaving is only over-approximated: a mutator's `notify_one` that falls
+between `inc_parked_workers` and `Condvar::wait` of a worker that is going to wait is lost in the
+code; in the atomic order that worker already waits and is `woken`, which the model lets last
+arbitrarily long.  The stranded state itself — a waiter, a runnable packet, no notification pending —
+is reached in the model through the `parking` window, see `stranded_with_mutator_push`.)
+Everything else (bucket queues, `open`
 flags, sentinels, designated queues — all lock-free or separately locked in the code) is one action
 per memory operation.  `poll` is *not* atomic: a polling worker observes the containers one at a
 time (`observeEmpty`), in any order, and may only decide to park (`pollMiss`) after it has seen each
